@@ -360,6 +360,24 @@ pub fn run_c07(out: &mut Out, seed: u64, thorough: bool) {
             run_line(out, &mut s, &format!("spec.load {} {} 02020201", b.0, b.1));
             run_line(out, &mut s, "d");
         }
+        // AUTO is the LENGTH of the image, whatever its bytes are: images ending in zero bytes, all-zero images,
+        // the empty image, zero bytes in the middle
+        for img in ["020200", "02020000", "0200", "00", "0000000000", "", "0200020002", "020202010000000000000000"] {
+            let ss = *rng.pick(&["0", "16", "N"]);
+            run_line(out, &mut s, &format!("spec.load {} A {}", ss, if img.is_empty() { "-" } else { img }));
+            run_line(out, &mut s, "d");
+        }
+        {
+            // random image with a random zero tail
+            let n_img = 1 + rng.below(60) as usize;
+            let mut img = image(&mut rng, n_img);
+            let tail = 1 + rng.below(9);
+            for _ in 0..tail {
+                img.push(0);
+            }
+            run_line(out, &mut s, &format!("spec.load 16 A {}", hexs(&img)));
+            run_line(out, &mut s, "d");
+        }
         // model correspondence of load and resets themselves
         run_line(out, &mut s, &load_line(&mut rng));
         run_line(out, &mut s, "d");
